@@ -29,7 +29,7 @@ def build_module(moddir, ver, shift=0, name="cachedmod", body=None):
 def main(spec=None, out=None):
     if spec is None:
         spec = json.loads(sys.argv[1])
-    warnings.simplefilter("ignore")
+    warnings.simplefilter("error" if spec.get("opts", {}).get("warn_error") else "ignore")      # (warnings as errors: like python -W error)
     os.environ["VERIF_EXEC_LOG"] = spec["log"]
     build_module(spec["moddir"], spec.get("ver", 1), spec.get("shift", 0))
     sys.path.insert(0, spec["moddir"])
